@@ -915,7 +915,7 @@ def install(env: Env) -> None:
             if env.allow_spin:
                 return False
             o = getattr(self.s3, "objects", {}).get(self.key)
-            if o is None or o.body.decode("utf-8", "replace") == self.lock_id:
+            if o is None or o.body.decode("utf-8", "replace").split(":", 1)[0] == self.lock_id:
                 return False
             return env.clock.peek_ms() / 1000.0 - o.mtime <= self.lease_seconds      # held and not lapsed
 
@@ -935,7 +935,7 @@ def install(env: Env) -> None:
         n0 = len(env.lock_deletes)
         orig_s3_rel(self)
         mine = [b for who, b in env.lock_deletes[n0:] if who == a.name]
-        wiped = any(b is not None and b != self.lock_id for b in mine)      # this release deleted somebody else's lock object
+        wiped = any(b is not None and b.split(":", 1)[0] != self.lock_id for b in mine)      # this release deleted somebody else's lock object
         if env.flocks.get(self.key) == a.name or wiped:
             env.flocks.pop(self.key, None)
         env.sched.emit({"k": "DUnlock", "wiped": bool(wiped)})
